@@ -38,7 +38,7 @@ PatternSets == { {P("//...", <<>>, TRUE, "")}, {P("//p/...", <<"p">>, TRUE, "")}
                  {P("//p:n1", <<"p">>, FALSE, "n1")}, {P(":n1", <<"p">>, FALSE, "n1")}, {P("//r", <<"r">>, FALSE, "r")},
                  {P("//p/q/...", <<"p", "q">>, TRUE, "")}, {P("//p:n2", <<"p">>, FALSE, "n2")},
                  {P("//p:n1", <<"p">>, FALSE, "n1"), P("//r", <<"r">>, FALSE, "r")}, {P("//p/...:n3", <<"p">>, TRUE, "n3")},
-                 {P(":all", <<"p">>, FALSE, "")} }
+                 {P(":all", <<"p">>, FALSE, "")}, {P("//...:n1", <<>>, TRUE, "n1")}, {P("//...:all", <<>>, TRUE, "")} }
 IsPrefixSeq(a, b) == Len(a) <= Len(b) /\ SubSeq(b, 1, Len(a)) = a
 PatMatches(g, pt, n) == /\ IF pt.rec THEN IsPrefixSeq(pt.prefix, Pkg(n)) ELSE Pkg(n) = pt.prefix
                         /\ pt.name = "" \/ pt.name = Name(g, n)
